@@ -1562,6 +1562,49 @@ def sink_flag_tails(tree, ref, ref_locals):
             for block in _blocks(fn):
                 for i, st in enumerate(block):
                     rest = block[i + 1:]
+                    # a default bound just before the chain and overwritten in some branches: every branch that does not set the name
+                    # sets the default (explicit else) - then the chain is complete and the rest below applies
+                    if isinstance(st, ast.If) and rest and i >= 1 and isinstance(rest[0], ast.If) and isinstance(block[i - 1], ast.Assign) and len(block[i - 1].targets) == 1 and \
+                            isinstance(block[i - 1].targets[0], ast.Name) and isinstance(block[i - 1].value, ast.Constant):
+                        v = block[i - 1].targets[0].id
+                        tnames = {n.id for n in ast.walk(rest[0].test) if isinstance(n, ast.Name)}
+                        if tnames == {v} and v not in want and v not in params and not any(isinstance(n, (ast.Call, ast.Attribute, ast.Subscript)) for n in ast.walk(rest[0].test)):
+                            n_stores = len([n for n in ast.walk(st) if isinstance(n, ast.Name) and n.id == v and isinstance(n.ctx, ast.Store)])
+                            n_reads = len(_reads([st], v))
+                            tail_sets = []
+
+                            def scan(stmts):
+                                last = stmts[-1] if stmts else None
+                                if isinstance(last, ast.If):
+                                    scan(last.body)
+                                    scan(last.orelse)
+                                elif isinstance(last, ast.Assign) and len(last.targets) == 1 and isinstance(last.targets[0], ast.Name) and last.targets[0].id == v:
+                                    tail_sets.append(last)
+                            scan([st])
+                            if n_stores == len(tail_sets) and n_stores >= 1 and not n_reads:
+                                dflt = block[i - 1].value
+
+                                def complete(stmts, like):
+                                    last = stmts[-1] if stmts else None
+                                    if isinstance(last, ast.If):
+                                        complete(last.body, last)
+                                        if not last.orelse:
+                                            last.orelse = [ast.copy_location(ast.Assign(targets=[ast.Name(id=v, ctx=ast.Store())], value=copy.deepcopy(dflt), lineno=last.lineno), last)]
+                                        else:
+                                            complete(last.orelse, last)
+                                    elif isinstance(last, ast.Assign) and len(last.targets) == 1 and isinstance(last.targets[0], ast.Name) and last.targets[0].id == v:
+                                        pass
+                                    elif stmts and _all_paths_leave(stmts):
+                                        pass
+                                    else:
+                                        stmts.append(ast.copy_location(ast.Assign(targets=[ast.Name(id=v, ctx=ast.Store())], value=copy.deepcopy(dflt), lineno=like.lineno), like))
+                                holder = [st]
+                                complete(holder, st)
+                                del block[i - 1]
+                                ast.fix_missing_locations(fn)
+                                changed = True
+                                total += 1
+                                break
                     if not (isinstance(st, ast.If) and st.orelse and rest):
                         continue
                     st.body[:] = _untuple(st.body)             # `a, b = x, y` in a branch binds a and b
@@ -1848,7 +1891,9 @@ def reshape_loops(tree, ref, ref_locals):
                         if init and len(steps) == 1 and len(all_stores) == 1 and iv not in params:
                             k = steps[0]
                             step = st.body[k]
-                            one = isinstance(step.op, ast.Add) and isinstance(step.value, ast.Constant) and step.value.value == 1
+                            one = isinstance(step.op, ast.Add) and isinstance(step.value, ast.Constant) and isinstance(step.value.value, int) and \
+                                not isinstance(step.value.value, bool) and step.value.value >= 1
+                            stride = step.value.value if one else 1
                             j0 = init[-1]
                             between = block[j0 + 1:i]
                             # the bound: a local bound once just before the loop, or len(<local the body does not touch>)
@@ -1859,8 +1904,13 @@ def reshape_loops(tree, ref, ref_locals):
                                 X = bound.args[0].id
                                 xs = [n for x in st.body for n in ast.walk(x) if isinstance(n, ast.Name) and n.id == X]
                                 subs = [n for x in st.body for n in ast.walk(x) if isinstance(n, ast.Subscript) and isinstance(n.value, ast.Name) and n.value.id == X and isinstance(n.ctx, ast.Load)]
-                                stable = len(xs) == len(subs) and X not in params and any(
-                                    isinstance(b_, ast.Assign) and len(b_.targets) == 1 and isinstance(b_.targets[0], ast.Name) and b_.targets[0].id == X and _creates_object(b_.value) for b_ in block[:i])
+                                fresh = any(isinstance(b_, ast.Assign) and len(b_.targets) == 1 and isinstance(b_.targets[0], ast.Name) and b_.targets[0].id == X and
+                                            _creates_object(b_.value) for b_ in block[:i])
+                                # ... or nothing the body does can reach X at all: only pure library calls, X itself only read by subscripts
+                                quiet = all((_txt(c_.func) in PURE_FUNCS) or (isinstance(c_.func, ast.Attribute) and c_.func.attr in PURE_METHODS)
+                                            for x in st.body for c_ in ast.walk(x) if isinstance(c_, ast.Call)) and \
+                                    not any(isinstance(n, ast.Name) and n.id == X and isinstance(n.ctx, (ast.Store, ast.Del)) for x in st.body for n in ast.walk(x))
+                                stable = len(xs) == len(subs) and (X not in params or quiet) and (fresh or quiet)
                             pre, post = st.body[:k], st.body[k + 1:]
                             pre_ok = all(isinstance(x, ast.Assign) and len(x.targets) == 1 and isinstance(x.targets[0], ast.Name) and _pure(x.value, True) for x in pre)
                             if k == len(st.body) - 1:
@@ -1871,7 +1921,9 @@ def reshape_loops(tree, ref, ref_locals):
                             betw_ok = all(isinstance(x, ast.Assign) and not any(isinstance(n, ast.Name) and n.id == iv for n in ast.walk(x)) for x in between)
                             if one and stable and shape_ok and not after and betw_ok:
                                 start = block[j0].value
-                                args = [bound] if isinstance(start, ast.Constant) and start.value == 0 else [start, bound]
+                                args = [bound] if isinstance(start, ast.Constant) and start.value == 0 and stride == 1 else [start, bound]
+                                if stride != 1:
+                                    args.append(ast.Constant(value=stride))
                                 new_body = pre + post
                                 loop = ast.For(target=ast.Name(id=iv, ctx=ast.Store()), iter=ast.Call(func=ast.Name(id='range', ctx=ast.Load()), args=args, keywords=[]),
                                                body=new_body or [ast.Pass()], orelse=[], lineno=st.lineno)
